@@ -333,17 +333,13 @@ SEL = {3: selections(3), 4: selections(4),
 
 def run_task(task):
     if task.get("mode") == "mixed":
-        r = Result()
-        for k, masks in pairs.mixed_rate_triples(tuple(task["ks"]), 2, task["shard"],
-                                                 task["nshards"]):
-            r.states += 1
-            r.transitions += 1
-            r.sigs.add(lattice.signature(k, masks))
+        def mixed(r, k, masks, task):
             trains, edges = pairs.trains_edges(k, masks)
             for si, idx in enumerate((None, [2, 0, 1])):
                 eval_list(r, trains, edges, idx, None, "auto", task["backend"],
                           (k, pairs.nspikes(masks), si))
-        return r
+        return pairs.run_states(task, mixed, ID, states=pairs.mixed_rate_triples(
+            tuple(task["ks"]), 2, task["shard"], task["nshards"]))
     return pairs.run_states(task, check_state, ID)
 
 
